@@ -264,7 +264,13 @@ func makeUmemo(twoU, n1 int, t []int) []map[ukey]float64 {
 	for A_2i := range A[2] {
 		Asum := 0.0
 		r2Low := maxint(0, A_2i.n1-t[0])
-		r2High := (A_2i.twoU - A_2i.n1*(t[0]-A_2i.n1)) / N_2
+		// r2 ranges over 2U(r2) <= twoU, i.e. r2 <= floor(numer/N_2).
+		// Go's integer division truncates toward zero, so a negative
+		// numerator must be handled separately (no r2 qualifies).
+		r2High := -1
+		if numer := A_2i.twoU - A_2i.n1*(t[0]-A_2i.n1); numer >= 0 {
+			r2High = numer / N_2
+		}
 		for r2 := r2Low; r2 <= r2High; r2++ {
 			Asum += mathx.Choose(t[0], A_2i.n1-r2) *
 				mathx.Choose(t[1], r2)
